@@ -380,9 +380,23 @@ macro_rules! group_impl {
             /// such a token decode successfully knows the code used the unchecked API
             pub fn from_compressed_unchecked(b: &[u8; $CL]) -> CtOption<Self> {
                 match untoken(b) {
-                    Some((k, id, _)) if k == $KIND || k == $BAD => CtOption::new($A::from_term(id), Choice::from(1)),
+                    Some((k, id, _)) if k == $KIND => CtOption::new($A::from_term(id), Choice::from(1)),
+                    Some((k, id, _)) if k == $BAD => {
+                        // a distinct element (fresh variable with the same shadow value): the honest term stays untainted
+                        let t = fresh_scalar("offgroup", shadow_of(id));
+                        mark_offgroup(t);
+                        CtOption::new($A::from_term(t), Choice::from(1))
+                    }
                     _ => CtOption::new($A::identity(), Choice::from(0)),
                 }
+            }
+            /// an element obtained from an invalid-encoding token through an unchecked decoder is on the curve (the
+            /// unchecked decoders of the real crate only decompress) but outside the prime-order group
+            pub fn is_on_curve(&self) -> Choice {
+                Choice::from(1)
+            }
+            pub fn is_torsion_free(&self) -> Choice {
+                Choice::from((!is_offgroup(self.term())) as u8)
             }
             pub fn from_uncompressed(b: &[u8; $UL]) -> CtOption<Self> {
                 match untoken(b) {
@@ -392,7 +406,13 @@ macro_rules! group_impl {
             }
             pub fn from_uncompressed_unchecked(b: &[u8; $UL]) -> CtOption<Self> {
                 match untoken(b) {
-                    Some((k, id, _)) if k == $KIND || k == $BAD => CtOption::new($A::from_term(id), Choice::from(1)),
+                    Some((k, id, _)) if k == $BAD => {
+                        // a distinct element (fresh variable with the same shadow value): the honest term stays untainted
+                        let t = fresh_scalar("offgroup", shadow_of(id));
+                        mark_offgroup(t);
+                        CtOption::new($A::from_term(t), Choice::from(1))
+                    }
+                    Some((k, id, _)) if k == $KIND => CtOption::new($A::from_term(id), Choice::from(1)),
                     _ => CtOption::new($A::identity(), Choice::from(0)),
                 }
             }
